@@ -128,6 +128,8 @@ type Config struct {
 	KavadistActive bool
 	// KavadistInfra adds an infrastructure period with partner/core rewards to x/kavadist.
 	KavadistInfra bool
+	// KavadistPartnerRps is the partner reward per second in ukava (0 = 2).
+	KavadistPartnerRps int64
 	// CommitteeDuration is the voting period of the member committee.
 	CommitteeDuration time.Duration
 	// GovVotingPeriod is the x/gov voting period.
@@ -391,12 +393,16 @@ func BuildGenesis(p *Parties, cfg Config) []byte {
 
 	// ---- kavadist
 	var infraPeriods kavadisttypes.Periods
+	partnerRps := cfg.KavadistPartnerRps
+	if partnerRps == 0 {
+		partnerRps = 2
+	}
 	if cfg.KavadistInfra {
 		infraPeriods = kavadisttypes.Periods{kavadisttypes.NewPeriod(GenTime, GenTime.Add(2*365*24*time.Hour), d("1.000000000782997609"))}
 	}
 	kdParams := kavadisttypes.NewParams(cfg.KavadistActive, []kavadisttypes.Period{
 		kavadisttypes.NewPeriod(GenTime, GenTime.Add(2*365*24*time.Hour), d("1.000000001547125958")),
-	}, kavadisttypes.NewInfraParams(infraPeriods, kavadisttypes.PartnerRewards{kavadisttypes.NewPartnerReward(p.Users[7].Addr, c("ukava", 2))},
+	}, kavadisttypes.NewInfraParams(infraPeriods, kavadisttypes.PartnerRewards{kavadisttypes.NewPartnerReward(p.Users[7].Addr, c("ukava", partnerRps))},
 		kavadisttypes.CoreRewards{kavadisttypes.NewCoreReward(p.Users[6].Addr, d("1.0"))}))
 	gs[kavadisttypes.ModuleName] = cdc.MustMarshalJSON(kavadisttypes.NewGenesisState(kdParams, GenTime))
 
